@@ -91,6 +91,7 @@ let parse_cop (t : string list) : cop =
   | [ "CNeg"; z; x ] -> CNeg (v z, v x)
   | [ "CAbs"; z; x ] -> CAbs (v z, v x)
   | [ "CSet"; z; x ] -> CSet (v z, v x)
+  | [ "CSqrt"; z; x ] -> CSqrt (v z, v x)
   | [ "CErr" ] -> CErr
   | [ "CSetPrec"; p ] -> CSetPrec (zs p)
   | [ "CSetMode"; m ] -> CSetMode (mode_of m)
@@ -129,6 +130,7 @@ let process_line (line : string) =
           | "O" :: t -> ops := t :: !ops; names := List.hd t :: !names
           | [ "C"; p; m ] -> cx := Some (ctx_new (zs p) (mode_of m))
           | "P" :: _ -> par := true
+          | "R" :: _ -> ()        (* operations of the parallel phase only: not modelled, not printed *)
           | [] -> ()
           | _ -> failwith ("bad item: " ^ it))
         items;
